@@ -114,7 +114,8 @@ def main():
             qf = os.path.join(work, "lockset_query.v")
             open(qf, "w").write("From RV Require Import model.Base model.Lockset gen.Lockset_gen gen.Known_gen.\n"
                                 "Eval vm_compute in filter (fun k => negb (mem_str k known_race_keys)) (map race_key (race_pairs table)).\n"
-                                "Eval vm_compute in acyclic lock_edges.\n")
+                                "Eval vm_compute in acyclic lock_edges.\n"
+                                "Eval vm_compute in filter (fun r => negb (row_atomic field_sections r)) atomic_spec.\n")
             sh("cd coq && coqc -Q . RV model/Lockset.v && coqc -Q . RV gen/Lockset_gen.v && coqc -Q . RV gen/Known_gen.v", timeout=600)
             rq, oq = sh("coqc -Q coq RV %s" % qf, timeout=600)
             extra = "\n\nRacy pairs of the regenerated access table that are not known findings, and acyclicity of the lock order:\n" + oq
@@ -122,6 +123,9 @@ def main():
             for nk in newkeys:
                 violations.append((nk, replay_file("lockset_" + nk, "Unprotected conflicting accesses in the current source (table regenerated by tools/genlockset):\n" + nk + extra), True,
                                    "lock discipline broken: " + nk))
+            for (e_, f_) in re.findall(r'\("([A-Za-z.]+)",\s*"([A-Za-z.]+)"\)', oq.split("acyclic")[-1] if False else oq.split(": bool")[-1]):
+                violations.append(("atomicity:%s:%s" % (e_, f_), replay_file("atomic_%s_%s" % (e_, f_), "In the current source %s no longer touches %s within one locked episode of its component (table regenerated by tools/genlockset): an operation placed between its critical sections can observe or destroy intermediate state.%s" % (e_, f_, extra)), True,
+                                   "atomicity broken: %s on %s" % (e_, f_)))
             if "= false" in oq:
                 violations.append(("lock-order-cycle", replay_file("lockorder", "The lock acquisition order extracted from the current source has a cycle." + extra), True, "lock order is cyclic"))
         violations.append(("proof", replay_file("proof", "The Coq development no longer checks (%s).\n\n%s%s" % (where, out[-6000:], extra)), False,
